@@ -463,6 +463,11 @@ def check_config(res, spec, ns, aux=False, only=None, count_state=True):
         if mode == 'subpixels':
             res.axis('subpixels', repr(n))
         try:
+            if valid and mode == 'center' and form == 'default':
+                # an earlier mask of the same region, modified in place by its owner, must not show in a later one
+                m0 = _do_call(reg, mode, n, form)
+                if getattr(m0, 'data', None) is not None and m0.data.flags.writeable:
+                    m0.data[...] = 9
             m = _do_call(reg, mode, n, form)
             exc = None
         except Exception as e:        # judged below
